@@ -34,9 +34,9 @@ NCPU = os.cpu_count() or 4
 ATTACH = {
     "mod.rs": ("src/lib.rs", "#[cfg(arc_swap_verif)]\n#[doc(hidden)]\n#[path = \"verif_h/mod.rs\"]\npub mod verif_h;\n", "crate::verif_h"),
     "debt.rs": ("src/debt/mod.rs", "#[cfg(arc_swap_verif)]\n#[path = \"../verif_h/debt.rs\"]\npub(crate) mod verif_h;\n", "crate::debt::verif_h"),
-    "list.rs": ("src/debt/list.rs", "#[cfg(arc_swap_verif)]\n#[path = \"../verif_h/list.rs\"]\npub(crate) mod verif_h;\n", "crate::debt::verif_h::list_h"),
-    "helping.rs": ("src/debt/helping.rs", "#[cfg(arc_swap_verif)]\n#[path = \"../verif_h/helping.rs\"]\npub(crate) mod verif_h;\n", "crate::debt::verif_h::helping_h"),
-    "fast.rs": ("src/debt/fast.rs", "#[cfg(arc_swap_verif)]\n#[path = \"../verif_h/fast.rs\"]\npub(crate) mod verif_h;\n", "crate::debt::verif_h::fast_h"),
+    "list.rs": ("src/debt/list.rs", "#[cfg(arc_swap_verif)]\n#[path = \"../verif_h/list.rs\"]\npub(crate) mod verif_h;\n", "crate::debt::verif_h::list_h", "crate::debt::list::verif_h"),
+    "helping.rs": ("src/debt/helping.rs", "#[cfg(arc_swap_verif)]\n#[path = \"../verif_h/helping.rs\"]\npub(crate) mod verif_h;\n", "crate::debt::verif_h::helping_h", "crate::debt::helping::verif_h"),
+    "fast.rs": ("src/debt/fast.rs", "#[cfg(arc_swap_verif)]\n#[path = \"../verif_h/fast.rs\"]\npub(crate) mod verif_h;\n", "crate::debt::verif_h::fast_h", "crate::debt::fast::verif_h"),
     "hybrid.rs": ("src/strategy/hybrid.rs", "#[cfg(arc_swap_verif)]\n#[path = \"../verif_h/hybrid.rs\"]\npub(crate) mod verif_h;\n", "crate::strategy::hybrid::verif_h"),
 }
 # files that are sub-modules of crate::verif_h (declared inside mod.rs)
@@ -86,12 +86,20 @@ class Harness:
         base = os.path.basename(file)
         if base in ATTACH:
             self.module = ATTACH[base][2]
+            self.real_module = ATTACH[base][3] if len(ATTACH[base]) > 3 else ATTACH[base][2]
         else:
             self.module = "crate::verif_h::" + base[:-3]
+            self.real_module = self.module
 
     @property
     def path(self):
+        """path used by the native dispatch table (through pub(crate) re-exports)"""
         return self.module + "::" + self.name
+
+    @property
+    def kpath(self):
+        """the harness name as Kani prints it"""
+        return (self.real_module + "::" + self.name).replace("crate::", "")
 
 
 def discover():
@@ -134,7 +142,8 @@ def make_scratch():
     core = os.path.join(HERE, "contracts", "spec_core.rs")
     if os.path.exists(core):
         shutil.copy(core, vh)
-    for base_name, (target, line, _) in ATTACH.items():
+    for base_name, att in ATTACH.items():
+        target, line = att[0], att[1]
         if not os.path.exists(os.path.join(vh, base_name)):
             continue
         p = os.path.join(d, target)
@@ -189,7 +198,7 @@ def run_kani(scratch, flavour, harnesses, jobs, playback=False):
     else:
         cmd += ["-j", str(jobs)]
     for h in harnesses:
-        cmd += ["--harness", h.path.replace("crate::", "")]
+        cmd += ["--harness", h.kpath]
     overall = max(h.timeout for h in harnesses) * 2 + 600
     t0 = time.time()
     try:
@@ -208,7 +217,7 @@ def run_kani(scratch, flavour, harnesses, jobs, playback=False):
 
 def parse_kani(out, harnesses):
     """Splits terse Kani output (sequential or `-j N` "Thread k:" format) into per-harness results."""
-    by_path = {h.path.replace("crate::", ""): h for h in harnesses}
+    by_path = {h.kpath: h for h in harnesses}
 
     def find(head):
         h = by_path.get(head)
@@ -520,8 +529,15 @@ def check(prop, tier, keep=False, only=None):
             elif r["status"] == "failed":
                 obligations += r["checks"]
                 discharged += r["checks"] - r["failed"]
-                real = [fc for fc in r["failed_checks"]]
-                # a failing cover only (unreachable) is not a violation
+                # an unwinding assertion of a loop of the harness itself (or of a CBMC builtin such as
+                # memcmp) is an inadequate harness bound, not a property of the code: undecided.
+                def internal(fc):
+                    return fc["description"].startswith("unwinding assertion") and ("verif_h" in fc["function"] or fc["file"].startswith("<builtin"))
+                real = [fc for fc in r["failed_checks"] if not internal(fc)]
+                if not real:
+                    undecided.append("harness %s: only harness-internal unwinding bounds failed (%s) - harness bound too small, undecided" %
+                                     (h.name, "; ".join(fc["function"] for fc in r["failed_checks"])))
+                    continue
                 descs = "; ".join(fc["description"] for fc in real) or "unnamed failed check"
                 k = match_known(known, prop, h.name, descs)
                 if k:
